@@ -22,7 +22,7 @@ func TestMain(m *testing.M) {
 			"they request the same 1-4 fresh targets. The real runner.Run executes the graph with harness Targets. Oracle: LoadTarget and Evaluate "+
 			"at most once per label; when a dependency request returns every requested target has finished; each Result carries that target's actual error "+
 			"(identity) and the object LoadTarget returned; Run returns the root's outcome; no target is still executing when Run returns; no confirmed "+
-			"deadlock. Non-trivial = some target was requested by a second dependent while it had not finished. Distinct by case JSON.",
+			"deadlock. Project level: generated dawn projects whose dependency labels use every spelling (relative, absolute, target value, target://pkg:name) are built by the real Load/Run; per label at most one body start and one completion event per build, and a body starts after the bodies of its dependencies ended. Non-trivial = some target was requested by a second dependent while it had not finished. Distinct by case JSON.",
 		"cooperative scheduling cannot interleave inside windows without a scheduling point; jitter mode and -race cover those only probabilistically",
 		"a watchdog hit without a confirmed all-parked dump is inconclusive, not a violation",
 	)
@@ -119,8 +119,8 @@ func TestC04Aligned(t *testing.T) {
 		if i >= iters {
 			return rungraph.Case{}, false
 		}
-		mids := 2 + i%7    // 2..8 dependents
-		leaves := 1 + i%4  // requesting the same 1..4 fresh targets
+		mids := 2 + i%7   // 2..8 dependents
+		leaves := 1 + i%4 // requesting the same 1..4 fresh targets
 		nodes := make([]rungraph.Node, 1+mids+leaves)
 		var midIdx, leafIdx []int
 		for m := 0; m < mids; m++ {
